@@ -76,7 +76,7 @@ def _load_dry_config_file(orchestrator: "Orchestrator", config_file: str, verbos
         sys.exit(2)
 
     with config_path.open("r", encoding="utf-8") as f:
-        config: dict[str, Any] = yaml.safe_load(f)
+        config: dict[str, Any] = yaml.safe_load(f) or {}
 
     try:
         dry_config = config["dry"]
